@@ -95,6 +95,21 @@ SEEDS = {
     "C20y_B": ("C20", "isotropic fast path in calculate_admt drops the (1/R) d/dx term", "anisotropy exactly 1"),
     "C20_A": ("C20", "dx, dy derived from the grid extent with row/column counts swapped", "non-square grid"),
     "C20_B": ("C20", "calculate_admt scales the caller's derivative operators in place", "second use of the same operators dict"),
+    "C01z_A": ("C01", "SingleRayAttenuator.clamp_sigma setter notifies before it stores the new value (beam geometry rebuilt from the old one)", "beam with models, attenuator.clamp_sigma assigned as the last change, clamp_to_zero False"),
+    "C01z_B": ("C01", "Bremsstrahlung stores the provider's Gaunt factor through the public setter, marking it user-supplied", "no user Gaunt factor, observe, plasma.atomic_data = provider with another Gaunt factor, observe"),
+    "C06z_A": ("C06", "update_beam_cx_rates replaces a transition's metastable set instead of merging into it", "two separate writes for one transition with different donor metastables, then read the first"),
+    "C06z_B": ("C06", "update_wavelengths 'unchanged group' shortcut returns instead of continuing", "multi-group update whose earlier group repeats the stored values and whose later group is new or corrected"),
+    "C08z_A": ("C08", "ADF15 block extraction memoised per (file path, block number)", "a file parsed, replaced at the same path by another edition, parsed again in one process"),
+    "C08z_B": ("C08", "ADF11 installer converts units in place on the density array shared between the rates of one file", "install_adf11* of a file with >= 2 charge states, read back the axes"),
+    "C10z_A": ("C10", "RayTransferCylinder snaps the period with int() instead of round()", "n_polar > 1 and a period stated as a rounded-up decimal (51.4286 for 7 sectors)"),
+    "C10z_B": ("C10", "RayTransferPipeline0D keeps its sample counter across observations", "the same RayTransferPipeline0D instance used for a second observe()"),
+    "C14z_A": ("C14", "Caching3D allows a single node on the z axis", "z resolution coarser than the z extent (thin slab)"),
+    "C14z_B": ("C14", "Caching1D marks a cell as calculated before sampling it", "an evaluation aborted by an exception of the wrapped function, then the same cell again"),
+    "C15z_A": ("C15", "Observer0DGroup.__getitem__ up-front bounds check rejects index -len(group)", "integer index exactly -len(group)"),
+    "C15z_B": ("C15", "FibreOpticGroup.radius validates the length with zip(strict=True), after storing the common prefix", "sequence of wrong length assigned to radius, then the members read"),
+    "C16z_B": ("C16", "Polychromator range taken from the filters with the outermost central wavelengths", "nested filters: a broad band reaching further out than the line filter with the outermost centre"),
+    "C18z_A": ("C18", "ConstantBivariateGaussian widths updated in place, normalisation refreshed only by the y setter", "stddev_x set after construction as the last change"),
+    "C18z_B": ("C18", "single laser segment never shorter than 2 * radius", "laser_length < 2 * laser_radius"),
 }
 
 res, conf = {}, {}
